@@ -3,8 +3,8 @@ EXTENDS FmtTransparent, Json
 CONSTANTS EmitCases, DerivedTraits, PhTypes
 VARIABLES c
 
-NoLit == [pre |-> FALSE, post |-> FALSE, nph |-> 1, ref |-> "next", ty |-> "Display", mod |-> "none"]
-Lits == [pre : BOOLEAN, post : BOOLEAN, nph : 0..2,
+NoLit == [pre |-> FALSE, post |-> FALSE, esc |-> FALSE, nph |-> 1, ref |-> "next", ty |-> "Display", mod |-> "none"]
+Lits == [pre : BOOLEAN, post : BOOLEAN, esc : BOOLEAN, nph : 0..2,
          ref : {"next", "pos0", "pos1", "pos2", "pos_wrap0", "name_field", "name_other"},
          ty : PhTypes, mod : {"none", "ws", "colon", "colon_ws", "width", "fill", "left", "center", "right", "sign", "minus", "alt", "zero", "prec"}]
 ArgForms == {"none", "pos_field", "pos_expr", "named_match", "named_nomatch", "two"}
@@ -15,7 +15,8 @@ Cases == [hasAttr : {TRUE}, nfields : 1..2, named : BOOLEAN, D : DerivedTraits, 
 
 \* keep the space to the interesting part: text/second placeholder/modifiers are varied one at a time
 Interesting(x) ==
-    /\ (x.lit.pre => ~x.lit.post /\ x.lit.nph = 1 /\ x.lit.mod = "none")
+    /\ (x.lit.esc => (x.lit.pre \/ x.lit.post) /\ x.lit.nph = 1)       \* `{{{_0}`, `{_0}}}`, and both: `{{{_0}}}`
+    /\ (x.lit.pre => (~x.lit.post \/ x.lit.esc) /\ x.lit.nph = 1 /\ x.lit.mod = "none")
     /\ (x.lit.post => x.lit.nph \in {0, 1} /\ x.lit.mod = "none")
     /\ (x.lit.nph = 2 => x.lit.mod = "none" /\ x.lit.ref \in {"next", "pos0"})
     \* a literal without placeholders: plain text, or text with `{{`/`}}` escapes (post); never an argument
